@@ -44,10 +44,10 @@ def _kernel_frames(run):
 
 
 PROPS['C07'] = dict(
-    modules=['contracts.dtw_matrix_c', 'contracts.dtw_omp_c'],
+    modules=['contracts.dtw_matrix_c', 'contracts.dtw_omp_c', 'contracts.dtw_mp_py'],
     contracts=['dd_dtw_openmp.c::dtw_distances_prepare'] + [
         'dd_dtw_openmp.c::dtw_distances_%s_parallel' % k for k in
-        ('ptrs', 'ndim_ptrs', 'matrix', 'ndim_matrix', 'matrices', 'ndim_matrices')],
+        ('ptrs', 'ndim_ptrs', 'matrix', 'ndim_matrix', 'matrices', 'ndim_matrices')] + ['dtw.distance_matrix#mp'],
     lemmas=['LenFullClosed', 'LenRectClosed', 'RowsBefore', 'RowsBeyond', 'LenFullBeyond', 'LenRowsNonneg'],
     extra_obligations=_kernel_frames,
     level='proof',
@@ -56,11 +56,19 @@ PROPS['C07'] = dict(
                'distinct iterations (privatisation, pairwise disjoint writes, no cross-iteration reads, re-entrant '
                'kernels); schedule- and thread-count-independence then follows from the OpenMP memory model (assumed).',
     level_note='Trusted: OpenMP runtime executes every iteration exactly once and a race-free loop is equivalent to a '
-               'sequential order (A3); dvc C semantics (A2); solvers (A7). No interleaving is executed. The '
-               'multiprocessing branches of dtw.distance_matrix are not yet under contract (see DESIGN).',
+               'sequential order (A3); dvc C semantics (A2); solvers (A7). No interleaving is executed. '
+               'Multiprocessing: the branch of dtw.distance_matrix that maps the pure-Python kernel over a process pool is under '
+               'contract (dtw.distance_matrix#mp: for every block form the compact result holds, at the row-major rank of each '
+               'selected pair, the value dtw.distance returns for that pair in that argument order with the same options -- '
+               'literally the postcondition of the serial routine distance_matrix_python), with multiprocessing.Pool.map assumed '
+               'order-preserving (A3) and imap_unordered modelled as returning the results in an unknown order; SeriesContainer.wrap '
+               'is an assumed identity on contents; the except-ImportError handler around `import multiprocessing` is dropped. '
+               'The branch that maps the C single-pair wrapper (use_c=True, use_mp=True) has the same text with another kernel '
+               'function and is not separately proved (Cython call, A5).',
     trusted_base=['A2: C semantics as encoded by dvc', 'A3: OpenMP runtime / memory model', A7],
-    assumptions=['A2', 'A3 (OpenMP)', A7],
-    not_decided=['multiprocessing branches (Pool.map) of dtw.distance_matrix: not yet under contract'],
+    assumptions=['A2', 'A3 (OpenMP; multiprocessing.Pool.map order-preserving)', PY_A1, A7],
+    not_decided=['multiprocessing around the C single-pair routine (use_c=True, use_mp=True): same code shape as the proved Python-kernel '
+                 'branch, not separately proved', 'multivariate (use_ndim) multiprocessing branch'],
     technique='contract-based deductive verification + data-race-freedom obligations (two-iteration non-interference) discharged by z3',
 )
 
